@@ -20,7 +20,9 @@ import numpy as np
 
 from mabwiser.mab import MAB
 
-COUNTS = {"c08_predict": 0, "c08_expectations": 0, "c18_snapshots": 0, "c18_ctor_snapshots": 0}
+COUNTS = {"c08_predict": 0, "c08_expectations": 0, "c18_snapshots": 0, "c18_ctor_snapshots": 0, "c18_ctor_args_rechecked": 0}
+import weakref  # noqa: E402
+_CTOR_ARGS = weakref.WeakKeyDictionary()  # bandit -> [objects passed to the constructor, their snapshots]
 ALARMS = []  # dicts {property, what, detail}
 ATTACHED_WITH = None
 _lock = threading.Lock()
@@ -162,6 +164,19 @@ def _wrap_snapshot(name, fn):
             if before != after:
                 idx = [i for i, (b, a) in enumerate(zip(before, after)) if b != a]
                 _record("C18", "%s modified caller argument(s) #%s" % (name, idx), "")
+            try:
+                reg = _CTOR_ARGS.get(self)
+            except TypeError:
+                reg = None
+            if reg is not None:
+                now = [snap(o) for o in reg[0]]
+                with _lock:
+                    COUNTS["c18_ctor_args_rechecked"] += 1
+                if now != reg[1]:
+                    names = ["arms", "learning_policy", "neighborhood_policy"]
+                    _record("C18", "%s modified object(s) the bandit was constructed from: %s" % (
+                        name, [n for n, b, a in zip(names, reg[1], now) if b != a]), repr(reg[0][2])[:160])
+                    reg[1] = now
     wrapper.__wrapped_by_verif__ = True
     return wrapper
 
@@ -176,6 +191,10 @@ def _wrap_ctor(fn):
             return fn(self, arms, learning_policy, neighborhood_policy, *args, **kwargs)
         finally:
             after = [snap(o) for o in objs]
+            try:
+                _CTOR_ARGS[self] = [objs, after]
+            except TypeError:
+                pass
             with _lock:
                 COUNTS["c18_ctor_snapshots"] += 1
             if before != after:
